@@ -1562,6 +1562,9 @@ class Ev:
             if all(i is None or i is Ellipsis or (isinstance(i, SliceV) and i.lo is None and i.hi is None and i.step is None)
                    for i in items):
                 return base  # broadcasting wrapper: erased (axes are E3's business)
+            if base.is_number and not base.free_symbols and any(isinstance(i, SliceV) or (is_sym(i) and i.is_Integer) for i in items):
+                # a plain number (a float taken out of a list) is not subscriptable: TypeError, whatever the index
+                raise RaisedV("TypeError", f"{mod.rel}:{getattr(n, 'lineno', 0)}" if mod else "")
             from .opaque import scalar_part
             c, r = scalar_part(base)
             return c * indexed(r, tuple(items))
@@ -5077,6 +5080,38 @@ def lib_copy_deepcopy(ev, a, k, n, mod):
     return out_
 
 
+def lib_islice(ev, a, k, n, mod):
+    """itertools.islice(iterable, stop) / (iterable, start, stop[, step]) with constant bounds: the items are taken now (a cursor is advanced by exactly
+    the items consumed, as the lazy original does once it is exhausted by list())"""
+    it = a[0]
+    nums = [None if x is None else _const_int(x) for x in a[1:]]
+    if len(nums) == 1:
+        start, stop, step = 0, nums[0], 1
+    elif len(nums) in (2, 3):
+        start, stop, step = nums[0] or 0, nums[1], (nums[2] if len(nums) == 3 and nums[2] is not None else 1)
+    else:
+        raise ev.err("itertools.islice with these arguments", n, mod)
+    if stop is None or start < 0 or stop < 0 or step < 1:
+        raise ev.err("itertools.islice without a constant, non-negative stop", n, mod)
+    out, pos = [], 0
+    if hasattr(it, "sym_next"):
+        while pos < stop:
+            try:
+                item = it.sym_next(ev)
+            except RaisedV as e:
+                if e.exc_name == "StopIteration":
+                    break
+                raise
+            if pos >= start and (pos - start) % step == 0:
+                out.append(item)
+            pos += 1
+        return Tup(out, "list")
+    items = ev.iterate(it, n, mod)
+    return Tup(list(items[start:stop:step]), "list")
+
+
+lib_islice.kw = set()
+LIB.setdefault("itertools.islice", lib_islice)
 lib_copy_copy.kw = set()
 lib_copy_deepcopy.kw = set()
 LIB.setdefault("copy.copy", lib_copy_copy)
